@@ -39,8 +39,9 @@ class VSuper(V):
 
 
 class OldEnv(V):
-    def __init__(self, env):
+    def __init__(self, env, fs=None):
         self.env = env
+        self.fs = fs
 
 
 class VPoison(V):
@@ -860,7 +861,13 @@ class Interp:
     def ex_Call(self, n, env):
         if isinstance(n.func, ast.Name) and n.func.id == "old" and env.lookup("__old_env__") is not None:
             oe = env.lookup("__old_env__")
-            return self.eval(n.args[0], oe.env)
+            cur = (self.fs_bin, self.fs_txt, self.fs_exists)
+            if oe.fs is not None:
+                self.fs_bin, self.fs_txt, self.fs_exists = oe.fs
+            try:
+                return self.eval(n.args[0], oe.env)
+            finally:
+                self.fs_bin, self.fs_txt, self.fs_exists = cur
         if isinstance(n.func, ast.Name) and n.func.id == "super" and not n.args:
             cls = env.lookup("__class__")
             slf = env.lookup("__self__")
